@@ -107,6 +107,11 @@ type Variant struct {
 	// counts it); whatever they left behind in the long-lived objects must not show.
 	Warmup      int    `json:"warmup,omitempty"`
 	WarmupQuery string `json:"warmup_query,omitempty"`
+	// After > 0 (engine harness): once the evaluation that meets the plan's faults has
+	// returned, every fault stops (the daemon answers faithfully from then on) and the
+	// same Engine evaluates the plan's query After more times under a fresh context.
+	// Those answers are recorded in Outcome.After.
+	After int `json:"after,omitempty"`
 }
 
 // Violation describes what a check found.
